@@ -69,13 +69,13 @@ func (l *LineFilterPlanner) Process(ctx *shared.PlannerContext) (sql.ISelect, er
 }
 
 func (l *LineFilterPlanner) doLike(likeOp string) (sql.SQLCondition, error) {
-	enqVal, err := l.enquoteStr(l.Val)
+	// escape the LIKE metacharacters of the value first, then quote the pattern as a string literal
+	likeVal := strings.NewReplacer("\\", "\\\\", "%", "\\%", "_", "\\_").Replace(l.Val)
+	enqVal, err := l.enquoteStr(likeVal)
 	if err != nil {
 		return nil, err
 	}
-	enqVal = strings.Trim(enqVal, `'`)
-	enqVal = strings.Replace(enqVal, "%", "\\%", -1)
-	enqVal = strings.Replace(enqVal, "_", "\\_", -1)
+	enqVal = enqVal[1 : len(enqVal)-1]
 	return sql.Eq(
 		sql.NewRawObject(fmt.Sprintf("%s(samples.string, '%%%s%%')", likeOp, enqVal)), sql.NewIntVal(1),
 	), nil
